@@ -29,7 +29,7 @@ def compute_surv(events: List[str]) -> List[str]:
         t = l.split(' ', 1)[0]
         if t == 'E':
             stack.append(len(surv))
-        elif t in ('ap', 'a0'):
+        elif t in ('ap', 'a0', 'rp'):
             surv.append(l)
         elif t == 'X':
             start = stack.pop() if stack else 0
@@ -114,11 +114,13 @@ def oracle_hooks(c: Case, tr: Trace) -> Optional[str]:
         p = l.split()
         t = p[0]
         if t == 'E':
-            bstack.append([int(p[1]), None])
+            bstack.append([int(p[1]), None, bool(c.cfg.unwind)])
         elif t == 'st':
             hstack.append((int(p[1]), False))
             if not bstack or bstack[-1][0] != int(p[1]):
                 return f"start for rule {p[1]} outside its own invocation"
+            if len(p) > 5 and p[5] != '0':
+                bstack[-1][2] = True      # hooks run by the second control family, which defines unwind()
         elif t in ('ap', 'a0'):
             if not hstack or hstack[-1][0] != int(p[1]):
                 return f"{t} for rule {p[1]} while rule {hstack[-1][0] if hstack else None} is open"
@@ -139,7 +141,7 @@ def oracle_hooks(c: Case, tr: Trace) -> Optional[str]:
             ctl = c.g.nodes[nid].ctl if nid in c.g.nodes else False
             if ctl:
                 want = {'1': 'su', '0': 'fa', '2': 'uw'}[p[2]]
-                if p[2] == '2' and not c.cfg.unwind:
+                if p[2] == '2' and not b[2]:
                     # no unwind() in this control: the start stays open; discard it
                     if hstack and hstack[-1][0] == nid:
                         hstack.pop()
